@@ -163,6 +163,13 @@ def generate(seed, tier, index=0):
         "steps": rng.randint(2, 5 if tier == "thorough" else 4),
         "max_returns_p": rng.choice([0.0, 0.3, 0.5, 0.8]),
     }
+    if rng.random() < 0.03:
+        # sequences as long as a whole V domain, over a few letters: single histogram bins reach counts above 127 / 255
+        swarm["lengths"] = rng.choice([[126, 127, 128, 129], [127, 128], [254, 255, 256, 257]])
+        swarm["max_n"] = rng.choice([3, 5, 6])
+        swarm["steps"] = 2
+        if len(alphabet) > 3:
+            swarm["alphabet"] = alphabet = alphabet[:rng.choice([1, 2, 3])]
     big = rng.random()
     if big < 0.015 or (tier == "thorough" and big < 0.02):
         # lists beyond any "small input" path: hundreds of tasks per pool, chunks of tens of rows
